@@ -273,6 +273,17 @@ impl M {
                 EXT_FAIL.with(|f| *f.borrow_mut() = at.map(|a| (a, code)));
                 okv(json!({}))
             }
+            "ext_opaque" => {
+                let on = c["on"].as_bool().unwrap_or(false);
+                EXT_OPAQUE.with(|b| *b.borrow_mut() = on);
+                okv(json!({}))
+            }
+            "rng_fail" => {
+                let at = c["at"].as_u64();
+                let r = self.rngs.get_mut(gs(c, "id")?).ok_or("no such rng")?;
+                r.fail_at = at;
+                okv(json!({}))
+            }
             "dh_log" => {
                 let on = c["on"].as_bool().unwrap_or(true);
                 DH_LOG_ON.with(|b| *b.borrow_mut() = on);
